@@ -152,6 +152,9 @@ func (h *Header) Parse(b []byte) error {
 			h.Options = h.Options[:optlen]
 		}
 		copy(h.Options, b[HeaderLen:hdrlen])
+	} else {
+		// Don't keep the options of a header parsed into h earlier.
+		h.Options = h.Options[:0]
 	}
 	return nil
 }
